@@ -9,7 +9,7 @@ import os
 import random
 import sys
 import time
-from asyncio import Future, ensure_future, iscoroutine, sleep
+from asyncio import Future, ensure_future, gather, iscoroutine, sleep
 from binascii import hexlify, unhexlify
 from collections import Counter, defaultdict
 from struct import pack
@@ -250,12 +250,24 @@ class TunnelCommunity(Community):
         """
         Remove all circuits/relays/exitsockets.
         """
+        # Stop listening first, so that nothing new can be joined while we tear down.
+        self.endpoint.remove_listener(self)
+        crypto_endpoint = getattr(self, "crypto_endpoint", None)
+        if isinstance(crypto_endpoint, PythonCryptoEndpoint):
+            self.endpoint.remove_listener(crypto_endpoint)
+
+        removals = []
         for circuit_id in list(self.circuits.keys()):
-            self.remove_circuit(circuit_id, "unload", remove_now=True, destroy=DESTROY_REASON_SHUTDOWN)
+            removals.append(self.remove_circuit(circuit_id, "unload", remove_now=True, destroy=DESTROY_REASON_SHUTDOWN))
         for circuit_id in list(self.relay_from_to.keys()):
-            self.remove_relay(circuit_id, "unload", remove_now=True, destroy=DESTROY_REASON_SHUTDOWN)
+            removals.append(self.remove_relay(circuit_id, "unload", remove_now=True, destroy=DESTROY_REASON_SHUTDOWN))
         for circuit_id in list(self.exit_sockets.keys()):
-            self.remove_exit_socket(circuit_id, "unload", remove_now=True, destroy=DESTROY_REASON_SHUTDOWN)
+            removals.append(self.remove_exit_socket(circuit_id, "unload", remove_now=True,
+                                                    destroy=DESTROY_REASON_SHUTDOWN))
+        # The removals are tasks (they wait for remove_tunnel_delay): let them finish, otherwise shutting down the
+        # task manager below cancels them and the exit sockets are never closed.
+        if removals:
+            await gather(*removals, return_exceptions=True)
 
         await self.request_cache.shutdown()
 
